@@ -484,6 +484,19 @@ def run_cold(case: dict, res: UnitResult, error: Any) -> tuple[str, Any] | None:
             return "cold", {"why": "subscriber %s: %s" % (o.name, why), "expected": show_list(exp), "observed": show_list(o.timed()[:40])}
     if lab.escaped_to_scheduler:
         return "cold", {"why": "exception escaped into the scheduler: %r" % (lab.escaped_to_scheduler[0],)}
+    # second phase on the SAME scheduler, after it has run idle once: one more subscriber, started again
+    late = lab.observer("late", inner=False)
+    t_late = Fraction(int(float(lab.ts.clock)) + 10)
+
+    def sub_late() -> None:
+        late.subscription = src.subscribe(late) if case["mode"] == "factory" else src.subscribe(late, scheduler=lab.ts)
+    lab.at(float(t_late), sub_late)
+    lab.run()
+    res.count("cold_second_phase_on_a_scheduler_that_ran_idle")
+    exp = [(t_late + t, k, v) for (t, k, v) in parsed]
+    why = cmp_lists(exp, late.timed(), error is None, 1e-6)
+    if why:
+        return "cold", {"why": "subscriber on the re-started scheduler: %s" % why, "expected": show_list(exp), "observed": show_list(late.timed()[:40])}
     return None
 
 
